@@ -46,6 +46,16 @@ CHECKS = {
          "Generated trees with __type__ nodes and failing nodes at arbitrary depth, evaluated by Translator and PipelineTranslator and by an independent post-order evaluator; structure, call log (order, arguments, exactly once), error type, error location tokens and the call-log prefix before the failure must agree.",
          "Keys are identifier-like; the location string is tokenised into keys and indices rather than compared textually.",
          "3/C19"),
+ "C09": ("exploration",
+         "Hypothesis timed histories against real run() coroutines under trio's virtual clock (MockClock autojump)",
+         "Every shipped periodic service runs its real run() under a virtual clock for 0-60 periods with generated intervals and environment actions placed before/on/after boundaries; oracle over timestamps and values of every write reaching the recording pool (step grid, Linear rate bound for all instant pairs, Buffer boundary semantics on the single ordered event sequence, FactoryPool adjustment grid) and exceptions leaving run().",
+         "Relative time tolerance 1e-9 of the run length; actions nominally on a boundary may fall on either side; controller pools are kept in states where every step must write.",
+         "3/C09"),
+ "C15": ("exploration",
+         "Hypothesis histories + exhaustive depth-4 enumeration against real FactoryPool.run() under virtual clock; invariant oracle",
+         "Generated histories of demand writes, child state changes, self-disabling children and adjustment cycles; after every adjustment the statement's invariants are evaluated from the children; thorough tier enumerates all histories up to depth 4 over a small alphabet exhaustively.",
+         "Harness keeps strong references to every child; a child counts as released once the pool wrote demand 0 to it; demands are ints/dyadics.",
+         "3/C15"),
 }
 
 def main():
